@@ -17,7 +17,8 @@ def main():
     # the demonstrations assert that codelimit is imported from their scratch worktree: point them at /repo
     import re
     text = re.sub(r"/tmp/wt_C\d+", REPO, open(demo).read())
-    demo = "/tmp/_demo_under_test.py"
+    os.makedirs("/tmp/_demo_dir", exist_ok=True)
+    demo = "/tmp/_demo_dir/demo_under_test.py"
     open(demo, "w").write(text)
     assert sh(f"git -C {REPO} status --porcelain").stdout.strip() == "", "/repo not clean"
     env = dict(os.environ, PYTHONPATH=REPO, LC_ALL="C")
